@@ -18,11 +18,19 @@ func VH_C18_MiceEncode() {
 		backing[i] = 0xEE
 	}
 	p := backing[:5]
-	var w1, w2, w3 vh.Sink
-	d1, e1 := enc.Encode(&w1, p, 2)
-	enc.Encode(&w3, []byte{1, 2, 3}, 1)
-	d2, e2 := enc.Encode(&w2, p, 2)
-	vh.Assert(e1 == nil && e2 == nil && d1 == d2 && bytes.Equal(w1.B, w2.B), "same input, same stream and digest (repeated, interleaved)")
+	// vh.Isolated: any store into memory that existed before the call (payload array incl. spare capacity,
+	// package-level variables) is reported by the engine's write-set recorder
+	run := func(q []byte, rs int) ([]byte, error) {
+		return vh.Isolated(func() ([]byte, error) {
+			var w vh.Sink
+			d, err := enc.Encode(&w, q, rs)
+			return append([]byte(d+"|"), w.B...), err
+		})
+	}
+	o1, e1 := run(p, 2)
+	run([]byte{1, 2, 3}, 1)
+	o2, e2 := run(p, 2)
+	vh.Assert(e1 == nil && e2 == nil && bytes.Equal(o1, o2), "same input, same stream and digest (repeated, interleaved)")
 	ok := true
 	for i := 5; i < 9; i++ {
 		if backing[i] != 0xEE {
@@ -30,4 +38,7 @@ func VH_C18_MiceEncode() {
 		}
 	}
 	vh.Assert(ok, "payload backing array untouched incl. spare capacity")
+	// recorder witnesses: a same-value store into the spare capacity must be seen; a store into a fresh array not
+	vh.Assert(vh.IsolatedProbe(func() { backing[7] = 0xEE }), "witness: the write-set recorder sees a same-value store into the caller's spare capacity")
+	vh.Assert(!vh.IsolatedProbe(func() { fresh := make([]byte, 4); fresh[1] = 1 }), "witness: stores into memory allocated during the call are not reported")
 }
